@@ -74,8 +74,10 @@ def run(repo, rep, tier):
     rep.saw(ppf)
     helpers = {}
     for nm in ('_add_terrapin_warning', '_get_chacha_ciphers_enabled', '_get_chacha_ciphers_not_enabled', '_get_cbc_ciphers_enabled', '_get_cbc_ciphers_not_enabled', '_get_etm_macs_enabled', '_get_etm_macs_not_enabled'):
-        helpers[nm] = repo.func('ssh_audit', 'post_process_findings.' + nm)
-        rep.saw(helpers[nm])
+        # the nested helpers are an implementation detail: the decision table below interprets whatever post_process_findings is made of
+        if repo.has_func('ssh_audit', 'post_process_findings.' + nm):
+            helpers[nm] = repo.func('ssh_audit', 'post_process_findings.' + nm)
+            rep.saw(helpers[nm])
 
     # ---- rule 1: marker detection --------------------------------------------------------------------------
     asg = [n for n in walk_no_nested(ppf) if isinstance(n, ast.Assign) and unparse(n.targets[0]) == 'kex_strict_marker']
@@ -192,12 +194,9 @@ def run(repo, rep, tier):
         for n in walk_no_nested(f):
             if isinstance(n, ast.Call) and call_name(n) == '_add_terrapin_warning' and f is not ppf:
                 rep.check('sites', 'adder only called from post_process_findings', False, n, 'Terrapin warning adder called from %s' % q)
-            if isinstance(n, ast.Constant) and isinstance(n.value, str) and 'Terrapin attack' in n.value and f is not helpers['_add_terrapin_warning'] and 'INFO_STRICT_KEX' not in unparse(n._parent):
+            if isinstance(n, ast.Constant) and isinstance(n.value, str) and 'Terrapin attack' in n.value and f is not helpers.get('_add_terrapin_warning') and f is not ppf and 'INFO_STRICT_KEX' not in unparse(n._parent):
                 rep.check('sites', 'Terrapin warning text only written by the adder', False, n, 'Terrapin warning text also produced in %s' % q)
-    add = helpers['_add_terrapin_warning']
-    apps = [n for n in walk_no_nested(add) if isinstance(n, ast.Call) and isinstance(n.func, ast.Attribute) and n.func.attr == 'append' and n.args and isinstance(n.args[0], ast.Constant)]
-    ok = len(apps) == 1 and unparse(apps[0].func.value) == 'db[category][algorithm_name][2]' and not [k for t, p, k in path_condition(apps[0])]
-    rep.check('sites', 'adder appends the warning to row 2 (warnings) of db[category][name], unconditionally', ok, apps[0] if apps else add, 'adder writes to %s' % (unparse(apps[0].func.value) if apps else '?'))
+    # (that the text lands in row 2 of db[category][name] is decided on the table each interpreted path leaves behind -- see `misplaced` above)
 
     # ---- rule 3: predicate agreement -------------------------------------------------------------------------------------
     PAIRS = [('chacha', '_get_chacha_ciphers_enabled', '_get_chacha_ciphers_not_enabled', 'enc', 'encryption', 'chacha20-poly1305'),
@@ -207,6 +206,8 @@ def run(repo, rep, tier):
         # The helpers' behaviour (which list they read, what they exclude, what they return) is decided by the decision table above, where they are
         # interpreted in place.  What remains here is data: every database name that contains the shape substring is classified by the shape test.
         try:
+            if en not in helpers or ne not in helpers:
+                raise AnalysisError('helpers %s / %s do not exist' % (en, ne))
             v1, l1, t1 = shape_predicate(helpers[en])
             v2, l2, t2 = shape_predicate(helpers[ne])
         except AnalysisError as ex:
@@ -273,19 +274,13 @@ def run(repo, rep, tier):
             ok = ok and len(stores) == 1 and stores[0].lineno > skips[0].lineno and any(t is skips[0].test and p is False for t, p, k in path_condition(stores[0]))
         rep.check('suppress', 'suppressed names are skipped for every action before a recommendation is stored', ok, skips[0] if skips else gar, 'suppression skip in get_algorithm_recommendations missing or action-specific')
 
-    # ---- rule 5: totality on unknown names --------------------------------------------------------------------------------------------
-    subs = [n for n in walk_no_nested(add) if isinstance(n, ast.Subscript) and unparse(n) == 'db[category][algorithm_name]']
-    rep.floor('totality', 'table subscripts in the adder', len(subs), 1)
-    first = min(subs, key=lambda n: (n.lineno, n.col_offset))
-    guarded = any(('algorithm_name in db[category]' in unparse(t) and p) or ('algorithm_name not in db[category]' in unparse(t) and not p) for t, p, k in path_condition(first))
-    in_try = False
-    q = first
-    while q is not None and q is not add:
-        if isinstance(q, ast.Try) and any(h.type is None or 'KeyError' in unparse(h.type) or unparse(h.type) in ('Exception', 'LookupError') for h in q.handlers):
-            in_try = True
-        q = q._parent
-    # call sites pass names selected only by shape from the peer's lists
-    rep.check('totality', 'db[category][name] with a peer-supplied name is guarded by a membership test or KeyError handler', guarded or in_try, first,
+    # ---- rule 5: totality on unknown names (by interpretation) --------------------------------------------------------------------------
+    # a peer offers, without the strict-kex marker, a CBC-shaped cipher the rating table does not know together with an ETM MAC: the marking step must not raise
+    val = {'kexp': True, 'client': False, 'c': False, 's': False, 'chacha': False, 'cbc': True, 'etm': True}
+    finals, it, _t = T.interpret(repo, ppf, val, extra_enc=['zz-unknown-cbc'])
+    crashes = [fe.get('<crash>') for fe in finals if fe.get('<crash>')]
+    rep.evals()
+    rep.check('totality', 'marking tolerates a peer-supplied name of Terrapin shape that the rating table does not know', not crashes, ppf,
               'KeyError for an unknown peer-supplied name of Terrapin shape (e.g. "foo-cbc" plus any ETM MAC): db[category][algorithm_name] is indexed without a membership test',
               func='ssh_audit:post_process_findings._add_terrapin_warning', stmt='db[category][algorithm_name]')
 
